@@ -31,6 +31,20 @@ def _keys_as(keys, how):
     raise ValueError(how)
 
 
+_STORE_OPT = [("expire", 0), ("noreply", None), ("flags", None)]
+POSITIONAL = {
+    "set": (["key", "value"], _STORE_OPT), "add": (["key", "value"], _STORE_OPT), "replace": (["key", "value"], _STORE_OPT),
+    "append": (["key", "value"], _STORE_OPT), "prepend": (["key", "value"], _STORE_OPT),
+    "cas": (["key", "value", "cas"], [("expire", 0), ("noreply", False), ("flags", None)]),
+    "set_many": (["values"], _STORE_OPT),
+    "get": (["key"], [("default", None)]), "gets": (["key"], [("default", None), ("cas_default", None)]),
+    "gat": (["key"], [("expire", 0), ("default", None)]), "gats": (["key"], [("expire", 0), ("default", None), ("cas_default", None)]),
+    "delete": (["key"], [("noreply", None)]), "delete_many": (["keys"], [("noreply", None)]),
+    "incr": (["key", "delta"], [("noreply", False)]), "decr": (["key", "delta"], [("noreply", False)]),
+    "touch": (["key"], [("expire", 0), ("noreply", None)]),
+}
+
+
 def invoke(c, r):
     op = r["op"]
     if "keys_as" in r and "keys" in r:
@@ -39,6 +53,15 @@ def invoke(c, r):
     for name in ("expire", "noreply", "flags", "default", "cas_default"):
         if name in r:
             kw[name] = r[name]
+    if r.get("positional") and op in POSITIONAL:
+        # the optional arguments passed by position, in the order the Client class documents them; arguments left out
+        # in between take Client's documented defaults
+        lead, opt = POSITIONAL[op]
+        args = [r[name] for name in lead]
+        last = max([i for i, (name, _d) in enumerate(opt) if name in kw], default=-1)
+        for name, dflt in opt[:last + 1]:
+            args.append(kw.get(name, dflt))
+        return getattr(c, op)(*args)
     if op in STORE_OPS:
         return getattr(c, op)(r["key"], r["value"], **kw)
     if op == "cas":
@@ -201,6 +224,17 @@ def intended(r, cfg):
     if op == "stats":
         # arguments go through key validation with an EMPTY prefix
         return [{"verb": b"stats", "args": [wire_key(a, dict(cfg, key_prefix=b"")) for a in r.get("args", ())]}]
+    if op == "raw_command":
+        # the command as given, followed by ONE CR LF: what a strict server reads from exactly those bytes
+        from vlib.mcserver import Clock, McServer
+        cmd = r["command"]
+        cmd = cmd.encode(cfg.get("encoding", "ascii")) if isinstance(cmd, str) else cmd
+        srv = McServer(Clock(1_700_000_000), name="intended")
+        conn = srv.connect()
+        conn.feed(cmd + b"\r\n")
+        if srv.errors or conn.pending:
+            raise CannotEncode("raw command does not parse")
+        return srv.log
     if op == "quit":
         return [{"verb": b"quit"}]
     raise ValueError(op)
